@@ -502,43 +502,44 @@ func (c *Client) PublishPredefined(topicID uint16, payload []byte, qos uint8, re
 
 // Ping sends a PING packet to the MQTT-SN gateway.
 func (c *Client) Ping() error {
-	err, terminated := c.ping()
-	if terminated {
-		return c.group.Wait()
-	}
-	return err
-}
-
-// ping sends a PING packet to the MQTT-SN gateway and waits for the reply.
-// If the client is terminated in the meantime, it returns terminated=true
-// and does not wait for the client's goroutines (unlike Ping), hence it can
-// be used by these goroutines themselves.
-func (c *Client) ping() (err error, terminated bool) {
-	// PINGREQ/PINGRESP carry no message ID, hence there can be only one
-	// ping exchange at a time: Ping() and the keep-alive loop share it.
-	// (Two exchanges stored under the same packet type would replace and
-	// delete each other and one of them would never see its PINGRESP.)
-	c.pingLock.Lock()
-	var transaction *pingTransaction
-	if transactionx, ok := c.transactions.GetByType(pkts.PINGREQ); ok {
-		transaction, _ = transactionx.(*pingTransaction)
-	}
-	if transaction == nil {
-		transaction = newPingTransaction(c)
-		ping := pkts1.NewPingreq(nil)
-		c.transactions.StoreByType(pkts.PINGREQ, transaction)
-		transaction.Proceed(nil, ping)
-		if err := c.send(ping); err != nil {
-			transaction.Fail(err)
-		}
-	}
-	c.pingLock.Unlock()
+	transaction := c.startPing()
 	select {
 	case <-transaction.Done():
-		return transaction.Err(), false
+		return transaction.Err()
 	case <-c.groupCtx.Done():
-		return nil, true
+		return c.group.Wait()
 	}
+}
+
+// errPingCancelled is the result of a ping exchange which was abandoned
+// because the client has left the active state in the meantime.
+var errPingCancelled = errors.New("ping cancelled: the client is not active anymore")
+
+// startPing sends a PINGREQ packet to the MQTT-SN gateway and returns the
+// transaction which waits for the reply. It does not wait, hence it can be
+// used by the client's own goroutines (unlike Ping).
+//
+// PINGREQ/PINGRESP carry no message ID, hence there can be only one ping
+// exchange at a time: Ping() and the keep-alive loop share it. (Two exchanges
+// stored under the same packet type would replace and delete each other and
+// one of them would never see its PINGRESP.)
+func (c *Client) startPing() *pingTransaction {
+	c.pingLock.Lock()
+	defer c.pingLock.Unlock()
+
+	if transactionx, ok := c.transactions.GetByType(pkts.PINGREQ); ok {
+		if transaction, ok := transactionx.(*pingTransaction); ok {
+			return transaction
+		}
+	}
+	transaction := newPingTransaction(c)
+	ping := pkts1.NewPingreq(nil)
+	c.transactions.StoreByType(pkts.PINGREQ, transaction)
+	transaction.Proceed(nil, ping)
+	if err := c.send(ping); err != nil {
+		transaction.Fail(err)
+	}
+	return transaction
 }
 
 // Sleep informs the MQTT-SN gateway that the client is going to sleep.
